@@ -123,7 +123,7 @@ Theorem exponent_is_2k c tsh :
                           (zlen (snd (block_partitioner_init tsh (c_block c)))))%Z.
 Proof. intro H. unfold exponent. rewrite H. simpl. apply exponent_spec. Qed.
 
-(* sqrt_q is a lower approximation to 2^-40: r^2 <= x < (r + 2^-40)^2 for x > 0 *)
+(* sqrt_q is a lower approximation, 2^-40 relative *)
 Lemma sqrt_q_nonneg x : 0 <= sqrt_q x.
 Proof.
   unfold sqrt_q. destruct (Qleb x 0); [apply Qle_refl|].
